@@ -146,6 +146,26 @@ func (e *Enc) scanBlock(ms *modSet, b *ssa.BasicBlock, seen map[*ssa.Function]bo
 		case *ssa.Defer:
 			e.scanCall(ms, in.Common(), seen)
 		case *ssa.Go:
+			// ownership tokens transferred by the spawn are written by it
+			if callee := in.Common().StaticCallee(); callee != nil {
+				target := callee
+				if strings.HasSuffix(callee.Name(), "$bound") {
+					if fo, ok := callee.Object().(*types.Func); ok {
+						if t := e.P.SSA.FuncValue(fo); t != nil {
+							target = t
+						}
+					}
+				}
+				if fc, ok := e.P.CS.Funcs[funcKey(target)]; ok {
+					for _, tr := range fc.Transfers {
+						if ix, ok := tr.(*SIndex); ok {
+							if id, ok := ix.X.(*SIdent); ok {
+								ms.heaps["GV_"+id.Name] = true
+							}
+						}
+					}
+				}
+			}
 		}
 	}
 }
